@@ -557,7 +557,7 @@ ARITH = {"+": "+", "-": "-", "*": "*", "/": "/", "%": "%", "&": "&&&", "|": "|||
 
 LEAN_RESERVED = {"at", "from", "end", "in", "do", "then", "else", "fun", "open", "show", "have", "where", "with", "by", "local",
                  "instance", "variable", "example", "theorem", "def", "match", "if", "let", "for", "return", "import", "namespace",
-                 "section", "using", "calc", "suffices", "obtain", "exists", "forall", "Type", "Prop", "Sort", "deriving", "mutual"}
+                 "section", "using", "class", "structure", "inductive", "abbrev", "macro", "syntax", "private", "protected", "partial", "universe", "attribute", "prefix", "infix", "notation", "extends", "calc", "suffices", "obtain", "exists", "forall", "Type", "Prop", "Sort", "deriving", "mutual"}
 
 
 def ident(name):
@@ -651,6 +651,12 @@ class Emitter:
             return "[" + ", ".join(self.tx(x) for x in e[1]) + "]"
         if k == "repeat":
             return f"(List.replicate {self.tx(e[2])} {self.tx(e[1])})"
+        if k == "macro" and e[1] == "vec":
+            q = P(["["] + list(e[2]) + ["]"])
+            arr = q.primary(False)
+            if q.peek() is not None:
+                raise XlateError("vec! contents")
+            return self.tx(arr)
         if k == "closure":
             raise XlateError("closure outside a template")
         if k in ("if", "iflet", "match", "block"):
@@ -730,7 +736,7 @@ class Emitter:
                 return f"(if {self.tx(cond, 'c')} then {self.blk(rest, pure)} else {self.on_assert})"
             if e[0] == "macro" and e[1] == "unreachable" and self.on_unreachable is not None and not pure:
                 return self.on_unreachable
-            if e[0] == "macro":
+            if e[0] == "macro" and not any(match(pt, e, {}) for pt, _ in self.exprs):
                 if e[1] in MACRO_DROP:
                     return self.blk(rest, pure)
                 if e[1] in ("unreachable", "panic", "unimplemented", "todo"):
